@@ -623,7 +623,7 @@ func checkOverlayMaintenance(c *Ctx, rule string) {
 	if sv != nil && fAdd != nil && fRem != nil && commitFn != nil {
 		for _, f := range []*types.Var{fAdd, fRem} {
 			f := f
-			q := mustStateE(sv, false, func(in ssa.Instruction) bool { return isStoreToField(in, f) }, nil, fastDisabledEdge)
+			q := mustStateE(sv, false, l.storeOrReset(f, true), nil, fastDisabledEdge)
 			passedCommit := mustState(sv, false, func(in ssa.Instruction) bool { cc := callCommon(in); return cc != nil && predStatic(commitFn)(cc) }, nil)
 			ok := true
 			for _, r := range successReturns(sv) {
